@@ -314,7 +314,13 @@ func (h *HttpServer) handleStreamInit(w http.ResponseWriter, r *http.Request) {
 			h.writeHttpError(w, http.StatusInternalServerError, err, nil)
 			return
 		}
-		callToken, err := h.packCallToken(callID, outputSchema, auth, streamID)
+		// A dynamic method's input schema exists only on this StreamResult:
+		// carry it in the call token so continuations can cast against it.
+		var declaredInput *arrow.Schema
+		if info.InputSchema == nil {
+			declaredInput = streamResult.InputSchema
+		}
+		callToken, err := h.packCallTokenWithInput(callID, outputSchema, declaredInput, auth, streamID)
 		if err != nil {
 			h.writeHttpError(w, http.StatusInternalServerError, err, nil)
 			return
@@ -497,6 +503,28 @@ func (h *HttpServer) handleStreamExchange(w http.ResponseWriter, r *http.Request
 	if err != nil {
 		h.writeHttpError(w, http.StatusBadRequest, err, nil)
 		return
+	}
+
+	// A dynamic exchange method declares its input schema per call
+	// (StreamResult.InputSchema), so the registration-time cast above cannot
+	// see it: recover it from the call and cast now, as the pipe transports do.
+	if _, producer := tokenData.State.(ProducerState); !cancelled && !producer &&
+		info.InputSchema == nil && len(call.InputSchemaIPC) > 0 {
+		declared, schemaErr := deserializeSchema(call.InputSchemaIPC)
+		if schemaErr != nil {
+			h.writeHttpError(w, http.StatusBadRequest,
+				&RpcError{Type: "RuntimeError", Message: fmt.Sprintf("failed to recover input schema: %v", schemaErr)}, nil)
+			return
+		}
+		if !inputBatch.Schema().Equal(declared) {
+			castBatch, castErr := castRecordBatch(inputBatch, declared)
+			if castErr != nil {
+				h.writeHttpError(w, http.StatusBadRequest, castErr, nil)
+				return
+			}
+			defer castBatch.Release()
+			inputBatch = castBatch
+		}
 	}
 
 	// Rehydrate non-serializable fields if a callback is registered
